@@ -165,6 +165,12 @@ def falsify(ctx):
     for samples in CORPUS:
         for fw in common.FRAMEWORKS:
             cases.append(([("Root", samples)], fw))
+    # a renamed key that is missing from one sample, under every framework (metadata / alias options decide how its
+    # default is written)
+    for key in ("userId", "class", "kebab-key", "naïve"):
+        for fw in common.FRAMEWORKS:
+            cases.append(([("Root", [{"name": "first", key: 7}, {"name": "second"}, {"name": "third", key: None}])], fw))
+            cases.append(([("Root", [{"name": "first", key: "x"}, {"name": "second"}])], fw))
     sweep_from = len(cases)
     for samples in gen.pseudo_mix_sweep():
         cases.append(([("Root", samples)], "pydantic"))
@@ -191,6 +197,8 @@ def falsify(ctx):
         cmps = fcmps.get(i) or common.cmps_choice(rng)
         job = common.gen_job(rng, fw=fw)
         job["preamble"] = None
+        if i < sweep_from:
+            job["meta"] = (i % 2 == 0)
         case_registry = registry if spec == {"kinds": list(ALL), "datetime": False} else \
             stages.make_registry(tuple(spec["kinds"]), datetime=spec["datetime"])
         try:
